@@ -6,6 +6,7 @@ package affinity
 //
 //@ func GetNodeNameFromAffinity
 //@   pure
+//@   reads nothing
 //@   ensures affinity == nil ==> result == ""
 //@   loop 1 invariant true
 //@   loop 2 invariant true
